@@ -1,6 +1,59 @@
-//! Harness for property C04 (stub: not built yet).
+//! C04 — unique constraints always hold; a rejected write leaves no trace.
+//!
+//! Same engine as C02 (`../c02/src/engine.rs`): every case runs on a real collection, is dumped after
+//! every operation and compared with the Lean model (`drv_c04`) and with the independent oracle.
+//! The generator here is contention-heavy: every unique index (scalar `u`, optional text `e`, array
+//! `ut`, multi-field `a-b`, `b-tags`) is present from the start, the key universe has 2–3 values for
+//! ~6 documents, so most writes are rejected — on the 1st, 2nd or 3rd unique index, or (vector of the
+//! wrong dimension) only in the third index family after B-tree and BM25 were already changed.
+//! Oracle (per operation): every unique value has one owner (through the index walk and through
+//! the public Eq filter); dump-before = dump-after for every rejected operation; a value released by
+//! remove/update can be taken again.
+#[path = "../../c02/src/engine.rs"]
+mod engine;
+use engine::*;
+use vh_common::serde_json::json;
+use vh_common::*;
+
+fn gen_contended(r: &mut Rng) -> Vec<String> {
+    let g = GenCfg { universe: *r.pick(&[1, 2, 2, 3]), n_ops: 12 + r.usize(16), malformed: 8 };
+    let mut ops = gen_case(r, &g);
+    // make sure the unique indexes exist from the start (after the schema line)
+    let mut head = vec![ops.remove(0)];
+    for name in ["u", "e", "ut", "a-b", "b-tags"] {
+        let (n, fs) = BT.iter().find(|b| b.0 == name).unwrap();
+        let line = format!("mkbt {} {}", bt_rank(n), join(fs.iter(), ","));
+        if !ops.contains(&line) && r.chance(4, 5) { head.push(line); }
+    }
+    head.extend(ops);
+    head
+}
+
 fn main() {
-    let a = vh_common::Args::parse();
-    let r = vh_common::Report::new("C04", &a, "stub");
-    r.write(&a);
+    let args = Args::parse();
+    let mut rep = Report::new(
+        "C04",
+        &args,
+        "case = generated contention-heavy history (12..27 data ops, key universe of 2-4 values, all unique indexes present) over the fixed schema; \
+         distinct = distinct op list; non-trivial = at least one accepted add and a non-empty index relation at the end",
+    );
+    let rt = tokio::runtime::Builder::new_current_thread().enable_all().build().unwrap();
+    let mut model = ModelProc::from_args(&args);
+    let mut cases: Vec<(String, Vec<String>)> = vec![];
+    if let Some(p) = &args.replay {
+        cases.push(("replay".into(), read_replay(p)));
+    } else {
+        if let Some(dir) = &args.corpus { cases.extend(read_corpus(dir)); }
+        let n = args.budget(700, 20000);
+        for i in 0..n {
+            let mut r = Rng::for_case(args.seed, i);
+            cases.push((format!("gen{i}"), gen_contended(&mut r)));
+        }
+    }
+    let mut reported = 0;
+    for (name, ops) in &cases {
+        if check_case(&rt, name, ops, &mut model, &mut rep, args.replay.is_none() && reported < 3) { reported += 1; }
+        if rep.samples.len() < 3 { rep.sample(json!({"case": name, "ops": ops.iter().take(40).collect::<Vec<_>>()})); }
+    }
+    rep.write(&args);
 }
